@@ -39,6 +39,8 @@ class C19(Prop):
         n = 150 if tier == 'quick' else 1500
         inputs = [t for _, t in gens.mixed(rng, 60)] + ['+--+\n|  |\n+--+', 'a -> b', '', '"q" {t}\n# Legend:\nt = {fill:red}']
         # a backslash followed by the letter n is two characters of the drawing, except in the inline argument
+        # a legend with several classes: the rules must come out in the order of the text in every process
+        inputs += ['+--+\n|{a}|\n+--+\n# Legend:\na = {fill:red}\nb = {stroke:blue}\nc3 = {fill:none}\nd = {x:y}\ne = {z:w}\nf_ = {q:r}'] * 4
         inputs += ['ab\\ncd', '+--+\\n|  |', '--\\nope\n  \\name', 'x \\\\n y'] * 3
         inputs = [t.replace('\r', '').replace('\x00', '') for t in inputs]
         work = os.path.join(framework.WORK, 'C19'); shutil.rmtree(work, ignore_errors=True); os.makedirs(work)
